@@ -53,11 +53,19 @@ func genItemLen(t *rapid.T, allowHuge bool) int {
 }
 
 func genC15Join(t *rapid.T) c15Join {
+	// "any list of byte strings": the framing knows nothing of the 64-key limit of an offer, longer lists round-trip too
 	n := rapid.IntRange(0, 64).Draw(t, "n")
+	long := rapid.IntRange(0, 7).Draw(t, "longGate") == 0
+	if long {
+		n = rapid.SampledFrom([]int{63, 64, 65, 66, 100, 129, 300}).Draw(t, "nlong")
+	}
 	p := c15Join{Items: make([]itemSpec, n)}
 	huge := 0
 	for i := range p.Items {
 		l := genItemLen(t, huge < 2)
+		if long {
+			l = rapid.SampledFrom([]int{0, 0, 1, 2, 5, 127, 128, 300}).Draw(t, "llong")
+		}
 		if l >= 1<<20 {
 			huge++
 		}
@@ -89,6 +97,9 @@ func runC15Join(p c15Join, c *stats.Case) error {
 	}
 	if len(xs) == 0 {
 		c.Class("empty-list")
+	}
+	if len(xs) > 64 {
+		c.NT("list-longer-than-64-items")
 	}
 	enc := portalwire.VerifEncodeContents(xs)
 	if want := model.JoinStream(xs); !bytes.Equal(enc, want) {
@@ -169,6 +180,9 @@ func genC15Split(t *rapid.T) c15Split {
 	class := rapid.SampledFrom([]string{"valid", "truncate", "overshoot", "varint", "trailing", "raw", "splice"}).Draw(t, "class")
 	small := func(label string) [][]byte {
 		n := rapid.IntRange(0, 8).Draw(t, label+"n")
+		if rapid.IntRange(0, 5).Draw(t, label+"manyGate") == 0 {
+			n = rapid.SampledFrom([]int{63, 64, 64, 65, 70, 130}).Draw(t, label+"many") // the malformed part then lies behind 64 or more good items
+		}
 		xs := make([][]byte, n)
 		for i := range xs {
 			l := rapid.SampledFrom([]int{0, 0, 1, 2, 5, 127, 128, 129, 300}).Draw(t, label+"l")
@@ -216,12 +230,36 @@ func genC15Split(t *rapid.T) c15Split {
 	return c15Split{Class: class, Data: data}
 }
 
+// goodLeadingItems counts the well-formed items a stream starts with (minimal or not, 32-bit prefixes).
+func goodLeadingItems(b []byte) int {
+	n := 0
+	for len(b) > 0 {
+		var v uint64
+		i := 0
+		for ; i < len(b) && i < 5; i++ {
+			v |= uint64(b[i]&0x7f) << (7 * uint(i))
+			if b[i]&0x80 == 0 {
+				break
+			}
+		}
+		if i >= len(b) || i >= 5 || v > 1<<32-1 || uint64(len(b)-i-1) < v {
+			return n
+		}
+		b = b[i+1+int(v):]
+		n++
+	}
+	return n
+}
+
 func runC15Split(p c15Split, c *stats.Case) error {
 	c.Class("class:" + p.Class)
 	want, minimal, werr := model.SplitStream(p.Data)
 	got, gerr := portalwire.VerifDecodeContents(append([]byte{}, p.Data...))
 	if werr != nil {
 		c.NT("malformed:" + werr.Error())
+		if goodLeadingItems(p.Data) >= 64 {
+			c.NT("malformed-behind-64-or-more-good-items")
+		}
 		if gerr == nil {
 			return fmt.Errorf("malformed stream (%v) was split into %d items instead of rejected: %x", werr, len(got), clipHex(p.Data))
 		}
